@@ -39,6 +39,7 @@ def run(db, chk):
         radix |= {x for x in fl.const_roots(c.args[1]) if isinstance(x, int)}
     chk.ob("octal-radix", "undo octal branch", radix == {8}, "radix %s" % radix, "%s:%d" % (f.file, f.line), key="octal-radix")
     octal_width_rule(db, chk, f, fl)
+    consumed_rule(db, chk, f, fl)
     # the otherwise arm must build UnsupportedEscapeByte
     ow = f.reach_from(best["otherwise"])
     err = any(rv[0] == "agg" and rv[3] == "UnsupportedEscapeByte" for bi, si, pl, rv, ln, mc in f.assigns() if bi in tab.straight_line(f, best["otherwise"], 20))
@@ -78,3 +79,49 @@ def octal_width_rule(db, chk, f, fl):
         chk.ob("octal-escape-is-three-digits", "undo to_unsigned_with_radix@%d" % c.line, ln_.is_const() and ln_.c == 3,
                "the octal escape text has length %s, not the constant 3: `\\3032` (byte 0o303 followed by the character 2) is read as one number" % ln_, c.where(), key="octal-width|undo")
     chk.floor("undo: radix-8 parse of the octal escape", n, 1)
+
+
+def consumed_rule(db, chk, f=None, fl=None):
+    """undo() reports how many input bytes the quoted form occupies, and callers slice the input with it (`&line[consumed..]` in gix-attributes):
+    the count must never exceed the input.  Every increment of `consumed` by a constant amount (the quote, the backslash, the escape byte, the two
+    further octal digits) therefore happens only after the bytes it counts were SEEN: the increment is unreachable from the entry once the
+    success edges of the probes on the input (find_byteset -> Some, consume_one_past -> Ok, get(..) -> Some, first -> Some) are removed."""
+    from gx.flow import Flow as _Flow
+    if f is None:
+        f = db.one(r"^gix_quote::ansi_c::undo$")
+        fl = _Flow(f)
+    cons = f.locals_named("consumed")
+    chk.floor("undo: the `consumed` counter", len(cons), 1)
+    good = set()
+    probes = [c for c in f.calls() if c.is_(r"::find_byteset$|::find_byte$|undo::consume_one_past$|::get$|::first$|::split_first$|::strip_prefix$")]
+    for c in probes:
+        good |= fl.result_edges(c)["good"]
+    n = 0
+    for bi, si, pl, rv, ln, mc in f.assigns():
+        # `t = AddWithOverflow(consumed, k)` / `AddWithOverflow(consumed, x)` where x itself contains a +1
+        if rv[0] != "bin" or not rv[1].startswith("Add") or "p" not in rv[2] or rv[2]["p"] not in [[c] for c in cons]:
+            continue
+        amount = rv[3]
+        const_part = ("p" not in amount and isinstance(amount.get("v"), int) and amount["v"] > 0)
+        seen, work = set(), ([amount["p"][0]] if "p" in amount else [])
+        while work and not const_part:
+            l = work.pop()
+            if l in seen:
+                continue
+            seen.add(l)
+            for b2, s2, p2, r2, l2, m2 in f.assigns():
+                if p2 and p2[0] == l:
+                    if r2[0] == "bin" and r2[1].startswith("Add") and any("p" not in o and isinstance(o.get("v"), int) and o["v"] > 0 for o in (r2[2], r2[3])):
+                        const_part = True
+                    for o in ([r2[1]] if r2[0] == "use" else [r2[2]] if r2[0] == "cast" else []):
+                        if isinstance(o, dict) and "p" in o and isinstance(o["p"][0], int):
+                            work.append(o["p"][0])
+        if not const_part:
+            continue
+        n += 1
+        # the initial `consumed = 1` for the opening quote is an assignment, not an increment; increments in the entry block count the first byte test
+        ok = bool(good) and fl.cut_off([bi], good)
+        chk.ob("consumed-counts-only-seen-bytes", "undo consumed += ..@%d" % ln, ok,
+               "`consumed` grows by a constant on a path where no probe of the input succeeded (e.g. after `find_byteset(..).unwrap_or(len)`): for an unterminated quote it ends one past the input and callers that slice with it panic",
+               "%s:%d" % (f.file, ln), key="consumed|undo")
+    chk.floor("undo: constant increments of `consumed`", n, 3)
